@@ -475,7 +475,38 @@ def gen_hostile(rng):
     return GenProgram(HEAD + "\n".join(L) + "\n", "root", ["lw"], [], {"family": "hostile", "special": special})
 
 
-FAMILIES = [("annotated", gen_annotated, 0.34), ("depth2", gen_depth2, 0.32), ("instr", gen_instr, 0.12), ("hostile", gen_hostile, 0.22)]
+def gen_externs(rng):
+    """one library using type-specialised externs (relu, select, fmaxf, sin ...) at one or two
+    precisions, directly and through a callee; set_precision steps then mix them further"""
+    p1 = rng.choice(["f32", "f32", "f64"])
+    p2 = rng.choice(["f32", "f64", "f64"])
+    ext = lambda a, b: rng.choice([f"relu({a})", f"select({a}, {b}, {a}, {b})", f"relu({a}) + relu({b})", f"fmaxf({a}, {b})" if True else a, f"relu(relu({a}))", f"sin({a})"])
+    L = []
+    w = L.append
+    w("@proc")
+    w(f"def leafx(n: size, d: {p2}[n], s: {p2}[n]):")
+    w("    for i in seq(0, n):")
+    e = ext("s[i]", "d[i]")
+    if "fmaxf" in e and p2 != "f32":
+        e = "relu(s[i])"
+    w(f"        d[i] = {e}")
+    w("")
+    w("@proc")
+    w(f"def root(n: size, x: {p1}[n], y: {p1}[n], u: {p2}[n], v: {p2}[n]):")
+    w("    for i in seq(0, n):")
+    e = ext("x[i]", "y[i]")
+    if "fmaxf" in e and p1 != "f32":
+        e = "relu(x[i])"
+    w(f"        y[i] = {e}")
+    if rng.random() < 0.7:
+        w("    leafx(n, u, v)")
+    else:
+        w("    for i in seq(0, n):")
+        w(f"        u[i] = relu(v[i])")
+    return GenProgram(HEAD + "\n".join(L) + "\n", "root", ["leafx"], [], {"family": "externs"})
+
+
+FAMILIES = [("annotated", gen_annotated, 0.32), ("depth2", gen_depth2, 0.30), ("instr", gen_instr, 0.11), ("hostile", gen_hostile, 0.19), ("externs", gen_externs, 0.08)]
 
 
 def make_templates(ctx):
